@@ -252,6 +252,9 @@ def check_C10(ctx):
             if a != b:
                 j = next((x for x in range(min(len(a), len(b))) if a[x] != b[x]), min(len(a), len(b)))
                 ctx.violation("C10:isolation", "analysis A%d receives a different sequence among %d analyses than alone (first difference at %d: %r vs %r)" % (i, len(ans), j, a[j:j + 1], b[j:j + 1]), {"full": full, "solo": s})
+        # a program in which the selected hooks instrument nothing never creates the engine: no session to speak of
+        if "RuntimeEngine()" not in (rf.get("texts") or {}).get("main.py", ""):
+            continue
         # (2) begin first / end last for each analysis that implements them
         for a in full["analyses"]:
             seq = [d[2] for d in rf["inst"]["deliveries"] if d[0] == a.get("tag", a["cls"])]
@@ -442,6 +445,8 @@ def check_C13(ctx):
                 kk = (args[0], str(line), tag2cls[d[0]])
                 tally[kk] = tally.get(kk, 0) + 1
         covs = list(r.get("coverage", {}).values())
+        if not covs and "RuntimeEngine()" not in (r.get("texts") or {}).get("main.py", ""):
+            continue  # nothing was instrumented: no engine, no coverage file
         if len(covs) != 1:
             ctx.violation("C13:files", "expected exactly one coverage file, found %d" % len(covs), {"case": c})
             continue
@@ -550,7 +555,7 @@ def check_C12(ctx):
             if c["stray"]:
                 ctx.violation("C12:stray_idmap", "a file -dynapyt.json was created in the working directory (coverage accounting of runtime_event('', -1))", {"lifecycle_case": c})
             if not ok:
-                causes = _life_causes(c["body"], c["coverage"])
+                causes = _life_causes(c["body"], False)  # coverage no longer changes the lifecycle (fix 61a6cb4)
                 if causes:
                     for cause in sorted(causes)[:1]:
                         ctx.violation(cause, "lifecycle grammar broken: observed %r outcome %d" % (c["observed"], c["outcome"]), {"lifecycle_case": c})
